@@ -20,7 +20,9 @@
                             targets non-empty UTF-8 (read_to_string);
          walk_order_ok      the order lists exactly the tree's paths; with --keep-dir and without --overwrite
                             nothing precedes a directory above it (C02_parents_first_needed: otherwise the
-                            directory entry meets AlreadyExists) — the walker yields parents first;
+                            directory entry meets AlreadyExists; on the binary: known finding
+                            keepdir-file-before-dir, `create a.pna t/d/f t/d --keep-dir`) — the -r walker
+                            yields parents first;
          out                plain components, not the root.
      * C02_transport_lossless / C02_create_archive_extract(_real) / C02_create_solid_archive_extract: the
        container in between (C01, Proofs/CreateTransportFacts.v): for every configuration (codec, level,
